@@ -25,7 +25,7 @@ COMPOUND = ["a", "b", "c", "a_b", "b_c", "a_b_c", "c_a", "b_a", "c_b", "a_c"]
 TOOLLIKE = [
     "xor_a_b", "xor_b_a", "xor_b_c", "xor_c_b", "xor_a_c", "xor_c_a",
     "xor_inv_g", "xor_inv_h", "xor_xor_a_b_c", "xor_c_xor_a_b", "g", "h",
-    "not_a", "and_a_b", "or_a_b", "tie0", "g_0", "c0_a", "a_X", "aux_in_a",
+    "not_a", "and_a_b", "or_a_b", "tie0", "g_0", "c0_a", "a_X", "aux_in_a", "g_X", "h_X", "xor_g", "xor_inv",
 ]
 ESCAPED = ["\\x[3]", "\\a.b", "\\k;", "\\1st", "\\p(0)", "\\q,r", "\\m=n", "\\z[1][2]"]
 
